@@ -57,6 +57,8 @@ pub fn std_types() -> Vec<TypeDeclaration> {
             ],
         ),
         decl("Quad", vec![("Q0", vec![]), ("Q1", vec![]), ("Q2", vec![ext("a")]), ("Q3", vec![])]),
+        // a closure type whose method takes a closure of the same type (self application)
+        decl("Rec", vec![("run", vec![cns("f", "Rec"), ext("x")])]),
     ];
     for n in 0..=8usize {
         let fields: Vec<ContextBinding> = (0..n).map(|i| ext(&format!("f{i}"))).collect();
